@@ -2,6 +2,8 @@ package vnet
 
 import (
 	"net/netip"
+	"runtime/debug"
+	"strings"
 	"sync"
 	"time"
 
@@ -21,6 +23,7 @@ type Gate struct {
 	release chan struct{}
 	only    string // if set, only calls from this point count
 	Point   string // where the held call came from
+	Stack   string // call stack of the held call (functions of the code under test)
 }
 
 // Arm holds the (skip+1)-th call from now on.
@@ -58,6 +61,7 @@ func (g *Gate) Pass(point string) {
 	}
 	g.armed = false
 	g.Point = point
+	g.Stack = codeStack()
 	reached, release := g.reached, g.release
 	g.mu.Unlock()
 	close(reached)
@@ -92,6 +96,20 @@ func (g *Gate) Release() {
 			close(g.release)
 		}
 	}
+}
+
+// codeStack lists the functions of the code under test on the current stack, innermost first.
+func codeStack() string {
+	var out []string
+	for _, l := range strings.Split(string(debug.Stack()), "\n") {
+		if strings.HasPrefix(l, "github.com/mycoria/mycoria/") {
+			if i := strings.LastIndex(l, "("); i > 0 {
+				l = l[:i]
+			}
+			out = append(out, strings.TrimPrefix(l, "github.com/mycoria/mycoria/"))
+		}
+	}
+	return strings.Join(out, " < ")
 }
 
 // GateStorage passes every router lookup and save through a gate.
